@@ -488,7 +488,7 @@ func runC18(c *Ctx) {
 		j := jobs[i]
 		var out []byte
 		var err error
-		p, _ := Safely(func() {
+		p, pst := Safely(func() {
 			env, e := gx.EnvelopDoc(j.v.doc)
 			err = e
 			if e == nil {
@@ -500,6 +500,7 @@ func runC18(c *Ctx) {
 		id := ev.Hash(j.it.Rel, j.v.desc)
 		if p != nil {
 			c.R.Count("panics", 1)
+			c.R.Set("panic_example", map[string]any{"file": j.it.Rel, "variant": j.v.desc, "panic": fmt.Sprint(p), "at": panicSite(pst)})
 			c.R.Case(false, id)
 			return
 		}
@@ -525,4 +526,5 @@ func runC18(c *Ctx) {
 			c.R.Sample(map[string]any{"file": j.it.Rel, "variant": j.v.desc, "accepted": true})
 		}
 	})
+	c.Require("accepted:tag", "accepted:addon+tag", "accepted:rate", "accepted:ext-value", "accepted:country-override")
 }
